@@ -127,7 +127,7 @@ OBLIGATIONS['C16'] = [
 ]
 OBLIGATIONS['C18'] = [
     ('cwt::ClaimsSet::from_cbor_value', 'body'), ('cwt::ClaimsSet::to_cbor_value', 'body'), ('cwt::Timestamp::from_cbor_value', 'body'), ('cwt::Timestamp::to_cbor_value', 'body'),
-    ('cwt::lemma_claims_*', 'lemma'),
+    ('cwt::lemma_claims_*', 'lemma'), ('vroundtrip_cwt::lemma_claims_fixed_point', 'lemma'), ('vroundtrip_cwt::lemma_claims_res_deterministic', 'lemma'),
     ('context::PartyInfo::from_cbor_value', 'body'), ('context::PartyInfo::to_cbor_value', 'body'),
     ('context::SuppPubInfo::from_cbor_value', 'body'), ('context::SuppPubInfo::to_cbor_value', 'body'),
     ('context::CoseKdfContext::from_cbor_value', 'body'), ('context::CoseKdfContext::to_cbor_value', 'body'),
@@ -206,6 +206,7 @@ OBLIGATIONS['C11'] = [
     ('vstructs::lemma_structure_bytes', 'lemma'),
     ('vroundtrip::lemma_header_reencoding_accepted', 'lemma'), ('vroundtrip::lemma_header_reencoding_same', 'lemma'), ('vroundtrip::lemma_encoded_pair', 'lemma'),
     ('vroundtrip::lemma_encoded_labels_distinct', 'lemma'), ('vroundtrip::lemma_rest_of_encoded', 'lemma'), ('vroundtrip::lemma_hdr_cv_same', 'lemma'),
+    ('vroundtrip_cwt::lemma_claims_reenc', 'lemma'), ('vroundtrip_cwt::lemma_claims_roundtrip_from_memory', 'lemma'), ('vroundtrip_cwt::lemma_claims_encoded_pair', 'lemma'),
 ]
 # C07: decode contracts (iff + result relations) and encode contracts (functional) of every type, the lemmas that every decoded
 # value encodes successfully, the CoseKey decode-encode-decode lemma, and protected bytes kept (C02)
@@ -218,8 +219,9 @@ OBLIGATIONS['C07'] = [
     ('vlemmas::lemma_decoded_protected_is_encodable', 'lemma'),
     ('key::lemma_key_roundtrip', 'lemma'), ('key::lemma_enc_labels', 'lemma'), ('key::lemma_params_of_enc', 'lemma'),
     ('vstubs::check_*', 'body'),
-    # fixed point for header maps and COSE_Sign1 without counter signatures
-    ('vroundtrip::*', 'lemma'),
+    # fixed point (decode -> encode -> decode -> encode) for header maps, COSE_Signature, every message type and recipients
+    # at any nesting, and for CWT claims sets
+    ('vroundtrip::*', 'lemma'), ('vroundtrip_cwt::*', 'lemma'),
 ]
 OBLIGATIONS['C08'] = [
     ('header::Header::from_cbor_value_nested', 'body'), ('header::Header::from_cbor_value', 'body'),
